@@ -6,15 +6,18 @@ FAMILY = "mc.families.c06"
 
 
 def run(tier, seed, jobs):
-    configs = [dict(eager=False, salt=1, fine=False, residue=True, k2_budget=2)]
+    configs = [dict(eager=False, salt=1, fine=False, residue=True, k2_budget=2, early_budget=1)]
     if tier != "quick":
-        configs.append(dict(eager=True, salt=1, fine=False, residue=True, k2_budget=3))
+        configs.append(dict(eager=True, salt=1, fine=False, residue=True, k2_budget=3,
+                            early_budget=2))
     cov, viol, harness = run_family(FAMILY, tier, configs, jobs, max_execs=5000, seed=seed)
     cov["rule"] = (
         "all assignments of deadlines {past,0,1,2,4,inf} x sleep durations x kinds (CancelScope, "
         "move_on_after, fail_after) x inner shield x deadline re-assignment (earlier, later, "
         "inf, past) for two nested scopes (thorough: three); schedules = all choices of letting "
-        "the clock reach the next timer while the loop is busy (<= 2-3 per execution); oracle = "
+        "the clock reach the next timer while the loop is busy (<= 2-3 per execution) and of "
+        "waking the idle loop within one clock resolution before the next timer is due, as "
+        "asyncio does (<= 1-2 per execution); oracle = "
         "discrete-event reference evaluated at the observed event times (must/may fired); "
         "non-trivial = some scope was cancelled")
     for v in viol:
